@@ -210,8 +210,10 @@ func (m *model) prevValidOpp(p int) int {
 // glyph, else the end letter spacing, of the logically last glyph when its run has the paragraph
 // direction), minus optionally the start letter spacing of the first glyph of the line (the
 // implementation applies that trim on some paths only). lenient is the smallest admissible value,
-// strict the largest. When the last run does not have the paragraph direction the statement is read
-// both ways (discount or not).
+// strict the largest. When the last run does not have the paragraph direction nothing is discounted:
+// its logically last glyph is not "at the line end in paragraph direction" (it is visually interior and
+// keeps its advance; advanceSpaceAware documents the same). An earlier version read the statement
+// both ways there, which hid a fit decision that ignores such a space (seeded change c04-D).
 func (m *model) measure(s, e int) (lenient, strict fixed.Int26_6) {
 	base := m.cum[e] - m.cum[s]
 	lastRun := &m.b.runs[m.runOf[e-1]]
@@ -222,7 +224,7 @@ func (m *model) measure(s, e int) (lenient, strict fixed.Int26_6) {
 		lastG = m.endG0[e]
 	}
 	var trail fixed.Int26_6
-	if lastG != nil {
+	if lastG != nil && lastRun.Direction == m.b.cfg.Direction {
 		if gIsSpace(lastG, vertical) {
 			trail = gAdv(lastG, vertical)
 		} else {
@@ -231,9 +233,8 @@ func (m *model) measure(s, e int) (lenient, strict fixed.Int26_6) {
 	}
 	lo, hi := base-trail, base-trail
 	// a trailing glyph with a negative advance (negative word spacing larger than the space): not
-	// counting it widens the line; the statement's discount is read as optional there. The same when
-	// the last run does not have the paragraph direction.
-	if lastRun.Direction != m.b.cfg.Direction || trail < 0 {
+	// counting it widens the line; the statement's discount is read as optional there.
+	if trail < 0 {
 		if base < lo {
 			lo = base
 		}
